@@ -316,3 +316,55 @@ def shrink_ops(ops: list[dict], still_fails) -> list[dict]:
         if not changed:
             chunk //= 2
     return cur
+
+
+def short_sequences(alphabet: str, k: int, indexable: bool, npts: int = 40, mem: bool = False):
+    """All op sequences of length k over a small alphabet, after the prefix `create; add; add`:
+       A add (new distinct id, ids in non-sorted order)   L lookup latest id   O lookup oldest id   N lookup absent id
+       S sync   P reopen for append   R reopen for read   G get index 0   H get last index   I iter   E len   C close+reopen append"""
+    import itertools
+
+    out = []
+    for word in itertools.product(alphabet, repeat=k):
+        ops = [{'op': 'create', 'file': not mem, 'cache_mb': 1}]
+        ids: list[int] = []
+        tag = 0
+
+        def add():
+            nonlocal tag
+            fid = None
+            if indexable:
+                fid = (50 - 7 * tag) if tag % 2 == 0 else (60 + 3 * tag)
+                ids.append(fid)
+            o = {'op': 'add', 'tag': tag, 'npts': npts, 'extra': False, 'fid': fid}
+            tag += 1
+            return o
+
+        ops += [add(), add()]
+        for ch in word:
+            if ch == 'A':
+                ops.append(add())
+            elif ch == 'L':
+                ops.append({'op': 'get_flight', 'fid': ids[-1]})
+            elif ch == 'O':
+                ops.append({'op': 'get_flight', 'fid': ids[0]})
+            elif ch == 'N':
+                ops.append({'op': 'get_flight', 'fid': 99999})
+            elif ch == 'S':
+                ops.append({'op': 'sync'})
+            elif ch == 'P':
+                ops.append({'op': 'open_append', 'cache_mb': 1})
+            elif ch == 'R':
+                ops.append({'op': 'open_read', 'cache_mb': 1})
+            elif ch == 'G':
+                ops.append({'op': 'get', 'i': 0})
+            elif ch == 'H':
+                ops.append({'op': 'get', 'i': max(tag - 1, 0)})
+            elif ch == 'I':
+                ops.append({'op': 'iter'})
+            elif ch == 'E':
+                ops.append({'op': 'len'})
+            elif ch == 'C':
+                ops += [{'op': 'close'}, {'op': 'open_append', 'cache_mb': 1}]
+        out.append(ops)
+    return out
